@@ -13,6 +13,7 @@ func New() *Handler {
 	return &Handler{
 		m:        new(sync.Mutex),
 		requests: map[int64]chan event{},
+		done:     map[int64]chan struct{}{},
 	}
 }
 
@@ -20,6 +21,9 @@ type Handler struct {
 	m        *sync.Mutex
 	counter  int64
 	requests map[int64]chan event
+	// done holds a channel per request that is closed when the client disconnects,
+	// so that pending deliveries to it are abandoned instead of sent to a closed channel.
+	done map[int64]chan struct{}
 }
 
 type event struct {
@@ -31,12 +35,16 @@ type event struct {
 func (s *Handler) Send(eventType string, data string) {
 	s.m.Lock()
 	defer s.m.Unlock()
-	for _, f := range s.requests {
+	for id, f := range s.requests {
 		f := f
+		done := s.done[id]
 		go func(f chan event) {
-			f <- event{
+			select {
+			case f <- event{
 				Type: eventType,
 				Data: data,
+			}:
+			case <-done:
 			}
 		}(f)
 	}
@@ -53,12 +61,15 @@ func (s *Handler) ServeHTTP(w http.ResponseWriter, r *http.Request) {
 	s.m.Lock()
 	events := make(chan event)
 	s.requests[id] = events
+	done := make(chan struct{})
+	s.done[id] = done
 	s.m.Unlock()
 	defer func() {
 		s.m.Lock()
 		defer s.m.Unlock()
 		delete(s.requests, id)
-		close(events)
+		delete(s.done, id)
+		close(done)
 	}()
 
 	timer := time.NewTimer(0)
